@@ -106,12 +106,15 @@ def _legit_unconditional_pop(f, b, i, c):
     blk = cfg.blocks[b]
     # is the pop's result used (assigned) or discarded?
     user = None
+    derived = {i}       # the pop's value and what is computed from it without being stored (echs_event_range(pop(...)))
     for j in range(i + 1, len(blk.elems)):
-        for n in walk(blk.elems[j]["x"]):
-            if n.get("k") == "elem" and n["b"] == b and n["i"] == i:
+        hit = any(n.get("k") == "elem" and n["b"] == b and n["i"] in derived for n in walk(blk.elems[j]["x"]))
+        if hit:
+            if any(True for _ in writes(blk.elems[j]["x"])):
                 user = (j, blk.elems[j]["x"])
-        if user:
-            break
+                break
+            derived.add(j)
+            user = user or (j, blk.elems[j]["x"])
     if user:
         ux = user[1]
         ws = [(lv(l), kind) for l, kind, n in writes(ux)]
@@ -232,6 +235,16 @@ def r03_2(prog, rep):
         "cur>best": ({"from": 7, "dur": 0, "oid": 2}, {"from": 5, "dur": 0, "oid": 1}),
     }
     want = {"null": "skip", "cur<best": "replace", "cur=best,same-uid": "consume-duplicate", "cur=best,other-uid": "keep", "cur>best": "keep"}
+    # the index that goes with `best`: the local that takes the scan index in a block that also replaces `best` (found by role, not by name)
+    bidx = set()
+    for bb_, blk_ in cfg.blocks.items():
+        ws_ = [(lv(l), n) for e_ in blk_.elems for l, kind, n in writes(e_["x"])]
+        if any(t_ == best for t_, n_ in ws_):
+            bidx |= {t_ for t_, n_ in ws_ if t_ != best and n_.get("k") == "bin" and n_["op"] == "=" and lv(cfg.resolve(n_["r"])) == scan_i
+                     and t_ in {l_["n"] for l_ in f.locals}}
+    if len(bidx) != 1:
+        raise AnalysisBroken("next_evmux: the index kept with the best event was not found (%s)" % sorted(bidx))
+    besti = next(iter(bidx))
     for cname, (cv, bv) in cases.items():
         objs = {ecur: cv, best: bv}
         acts = []
@@ -255,7 +268,7 @@ def r03_2(prog, rep):
             for l, kind, n in writes(x):
                 if lv(l) == best and n.get("k") == "bin" and lv(n["r"]) == ecur:
                     acts.append("replace")
-                if lv(l) == "besti" or lv(l).endswith("besti"):
+                if lv(l) == besti:
                     acts.append("replace-index:" + lv(cfg.resolve(n["r"])) if n.get("k") == "bin" else "replace-index:?")
             for c in calls(x):
                 if c.get("fn") == POP:
@@ -314,10 +327,10 @@ def r03_2(prog, rep):
             for l, kind, n in writes(e["x"]):
                 if "->ev[" in lv(l):
                     seq.append(("cache", lv(l).split("->ev[")[1].rstrip("]")))
-        if seq == [(POP, "besti"), (PEEK, "besti"), ("cache", "besti")]:
-            rep.ok(rid, "next_evmux/popp-branch", f.loc(), "pop mode consumes and re-peeks exactly the stream of the returned event (index besti)")
+        if seq == [(POP, besti), (PEEK, besti), ("cache", besti)]:
+            rep.ok(rid, "next_evmux/popp-branch", f.loc(), "pop mode consumes and re-peeks exactly the stream of the returned event (index %s)" % besti)
         else:
-            rep.fail(rid, "next_evmux/popp-branch", f.loc(), "pop mode does %s; required pop/re-peek/cache of index besti" % seq)
+            rep.fail(rid, "next_evmux/popp-branch", f.loc(), "pop mode does %s; required pop/re-peek/cache of index %s" % (seq, besti))
     # first scan starts at 0, the second continues after the first hit up to ns; end-of-stream only if all null
     _scan_coverage(prog, rep, rid, f, bb, best)
 
